@@ -1,5 +1,5 @@
 (* One entry point for the harness: request (list Z) -> reply (list Z). *)
-From JP Require Import Base.Json Extract.Wire Extract.WireAst Model.Slice Spec.Slice Model.Ast Model.Eval Spec.Sem Spec.Compare Model.Tokens Model.Lex Model.PyFloat Model.Parse Model.Api.
+From JP Require Import Base.Json Extract.Wire Extract.WireAst Model.Slice Spec.Slice Model.Ast Model.Eval Spec.Sem Spec.Compare Model.Tokens Model.Lex Model.PyFloat Model.Parse Model.Api Spec.Rfc9535Grammar Spec.Types.
 
 Definition iota_json (len : Z) : list json := map (fun k => JNum (NInt (Z.of_nat k))) (seq 0 (Z.to_nat len)).
 Definition enc_sel (r : list (Z * json)) : list Z := enc_list (fun p => fst p :: enc_json (snd p)) r.
@@ -61,6 +61,27 @@ Definition op_compile (r : list Z) : list Z :=
   | _ => bad_request
   end.
 
+(* [104; fuel multiplier; text] -> in the RFC 9535 grammar? *)
+Definition op_in_rfc (r : list Z) : list Z :=
+  match r with
+  | k :: r0 => match dec_str r0 with
+               | Some (q, _) => enc_bool (in_rfc_fuel (Z.to_nat k * rfc_fuel q) q)
+               | None => bad_request end
+  | _ => bad_request
+  end.
+
+(* [109; lo; hi; registry; query AST; text] -> [in grammar?; well-typed?; integers in range?] *)
+Definition op_valid (r : list Z) : list Z :=
+  match r with
+  | lo :: hi :: r0 =>
+    match dec_registry r0 with Some (rg, r1) =>
+    match dec_query r1 with Some (q, r2) =>
+    match dec_str r2 with Some (t, _) =>
+      enc_bool (in_rfc t) ++ enc_bool (wt_query rg q) ++ enc_bool (ints_in_range lo hi q)
+    | None => bad_request end | None => bad_request end | None => bad_request end
+  | _ => bad_request
+  end.
+
 (* opcodes: model side 1..99, specification side 101..199 *)
 Definition dispatch (req : list Z) : list Z :=
   match req with
@@ -69,7 +90,9 @@ Definition dispatch (req : list Z) : list Z :=
   | 3 :: r => op_find r
   | 20 :: r => op_float r
   | 103 :: r => op_sem r
+  | 104 :: r => op_in_rfc r
   | 106 :: r => op_cmp r
+  | 109 :: r => op_valid r
   | 7 :: len :: r =>        (* slice selector on [0, 1, ..., len-1] *)
     match dec_opt dec_z r with Some (s, r1) =>
     match dec_opt dec_z r1 with Some (e, r2) =>
